@@ -2,14 +2,16 @@
 
 COMPONENTS = {
     "real": ["bitar (all modules, unmodified source)", "bita CLI modules cli/clone_cmd/compress_cmd/info_cmd/diff_cmd/string_utils (unmodified source)",
+             "src/main.rs main() and every other crate-root item, hosted: the exit status of the simulated process is what main() returns or exits with "
+             "(three textual rewrites by tools/gen_shadow.py: std::env::args_os() -> the harness's argument vector, the `?` on init_log(..) dropped because the harness's logger is already installed, "
+             "process::exit in main.rs -> an unwinding to the harness; if main.rs does not have that shape the harness dispatches the parsed command itself and counts main-not-hosted)",
              "clap", "futures-util (buffered/FuturesOrdered)", "prost", "blake2", "brotli", "brotli-decompressor", "zstd", "rust-lzma", "bytes",
              "tokio 1.42.0 io-util (AsyncRead/Write/Seek, *Ext, io::copy)", "kernel tmpfs behind the syscall seam"],
     "port": ["tokio::fs::File / OpenOptions state machine (port of tokio 1.42.0 src/fs/file.rs + io/blocking.rs Buf)"],
     "stub": ["tokio blocking pool, runtime, timers, stdin (simulator scheduler / virtual clock / scripted stdin; pool closures are called in place, and run on helper threads "
              "released one at a time -- virtual futex, virtual clock_gettime -- as soon as one of them has to wait for another thread)",
              "reqwest + hyper + TCP + web server (scripted fragment streams on the simulated network)",
-             "src/main.rs main() (argument fetch, Runtime::block_on and dispatch re-implemented in the harness; init_log()'s body is real and runs before every command, "
-             "the logger it would install is replaced by an in-memory one)", "process crash (stop the world at a syscall, keep files)",
+             "tokio::runtime::Runtime / Builder (block_on = the simulator's executor); the logger that init_log() would install (an in-memory one is installed instead; init_log's body runs)", "process crash (stop the world at a syscall, keep files)",
              "block devices (regular files presented as S_IFBLK at statx/fstat, ENOSPC past the end)"],
 }
 
@@ -128,6 +130,7 @@ prop("C04", "fault_enumeration",
      "(exhaustive when the archive is <= 1400 B / 4096 B in the thorough tier, else 512 + 128 sampled), each cloned through the library. Mode B (2/3): one scenario of the clone family (CLI or library, seeds, in place, local or HTTP, +-verify-output) and one drawn corruption: "
      "bit flip (anywhere / header / payload), multi-byte overwrite, swap of two stored chunk payloads, trailing garbage, truncation, header re-encoded with one changed field and a recomputed checksum while --verify-header carries the original, "
      "a server answering one request with a flipped bit / an error page of the requested length / a short body, a server going silent mid-body with --http-timeout set, a server that serves the pinned archive for the first requests and another valid archive afterwards, a header re-encoded with one changed field and the file cut off inside the stored header checksum, the pinned checksum planted in (or removed from) the source-checksum field of a re-encoded header, --verify-header off by one bit, --verify-header right (control). "
+     "One run in 25: an archive of exactly 255 / 256 / 257 / 512 (or 1, 7) distinct uncompressed chunks whose whole chunk-data section is damaged, cloned by `bita clone` through the repository's own main() (local or HTTP, fresh output or in place): counts on the edges of what an exit status can carry. "
      "Oracle: the clone does not exit 0, or the output equals the source; a change inside the header is never followed by success and (CLI) the output path is never opened; with --verify-header X success implies the real header checksum is X; "
      "StepBudget/Deadlock are violations, panics are counted and left to C15. Non-trivial: > 100 corruptions tried (A) / any corruption other than the control (B); distinct: trace hash + shape.",
      {"quick": {"runs": 3000, "max_secs": 150}, "thorough": {"runs": 200000, "max_secs": 1500}},
